@@ -308,6 +308,9 @@ func TestC01(t *testing.T) {
 					p := rapid.Permutation(tab.Names()).Draw(t, "perm")
 					k := rapid.IntRange(0, len(p)).Draw(t, "k")
 					cols := append([]string(nil), p[:k]...)
+					if len(cols) >= 2 && rapid.IntRange(0, 3).Draw(t, "dupkey") == 0 {
+						cols = append([]string{cols[0]}, cols...)
+					}
 					null := rapid.Bool().Draw(t, "null")
 					opName = fmt.Sprintf("Distinct(%q,null=%v)", cols, null)
 					run = func() { addFrame(qf.Distinct(groupby.Columns(cols...), groupby.Null(null)), opName, newGrp()) }
@@ -323,11 +326,20 @@ func TestC01(t *testing.T) {
 					if invalid {
 						cols = append(cols, "nosuch")
 					}
+					if len(cols) >= 2 && rapid.IntRange(0, 3).Draw(t, "dupkey") == 0 {
+						cols = append([]string{cols[0]}, cols...) // a name given twice: [a a b]
+					}
 					null := rapid.Bool().Draw(t, "null")
 					opName = fmt.Sprintf("GroupBy(%q,null=%v)", cols, null)
+					beforeCols := fmt.Sprint(cols)
 					run = func() {
 						add(&member{kind: "grouper", g: qf.GroupBy(groupby.Columns(cols...), groupby.Null(null)), origin: opName, ixGrp: newGrp()})
+						// the caller keeps using its list: a grouper over a tail of the same slice
+						if len(cols) > 1 {
+							add(&member{kind: "grouper", g: qf.GroupBy(groupby.Columns(cols[1:]...), groupby.Null(null)), origin: opName + " (tail of the same list)", ixGrp: newGrp()})
+						}
 					}
+					argCheck = func() string { return diffStr("column list", beforeCols, fmt.Sprint(cols)) }
 				case op == 16 && usable: // typed view
 					c := tab.Cols[rapid.IntRange(0, len(tab.Cols)-1).Draw(t, "viewcol")]
 					opName = "view of " + c.Name
